@@ -98,5 +98,7 @@ def run(prog: Program) -> Results:
     for fnd in sub10.findings:
         if fnd.rule == "R-C10-5":
             res.add("R-C05-4", fnd.key, fnd.where, fnd.message)
+    from sa.rules import merge
+    merge.check(prog, res, "R-C05-5", "R-C05-6")
     res.assumptions = ["the value read back equals VALUE, intermediate-set creation and pruning are runtime effects not decided here"]
     return res
